@@ -40,6 +40,19 @@ def scenarios(tier: str) -> List[Dict[str, Any]]:
     return out
 
 
+def slack(sc, dropped: int = 0) -> float:
+    """what the tolerance 'rounding precision x number of shifts' is widened by: binary64 noise only - except for a tabulated
+    (Unimod / monosaccharide) modification under an isotope label, whose condensed shift comes from the composition while the
+    original's mass uses the 6-decimal table value (the two differ by up to 5e-7 per entry: C10's tolerance, not C18's subject)"""
+    n = len(sc["seq"])
+    # a residue whose total shift is at most 1e-6 Da is written without a modification (the library's significance threshold
+    # for residue shifts, which are computed as differences): each such residue may cost 1e-6
+    base = 1e-6 * dropped
+    if KINDS[sc["kind"]][0] in ("unimod", "glycan") and "label" in sc["feat"]:
+        return base + 1e-6 * (n + 3)
+    return base + 1e-9 * (n + 3)
+
+
 def to_mm(sc) -> Dict[str, Any]:
     """scenario -> massmodel scenario dict"""
     seq = sc["seq"]
@@ -195,7 +208,8 @@ def check(sc, excl=(), pinned=False) -> Obligation:
             neutral.charge_adducts = None
             m0 = mass(neutral, monoisotopic=True)
             m1 = mass(back, monoisotopic=True)
-            tol = (10.0 ** (-prec)) * max(shifts, 1) + 1e-6 * (n + 3)
+            dropped = max(0, len(pos) - len(back.internal_mods or {}))
+            tol = (10.0 ** (-prec)) * max(shifts, 1) + slack(sc, dropped)
         return SR.close(m1, m0, tol)
 
     fn.why = ""
@@ -257,7 +271,8 @@ def main(p):
         problems.append("shift written where the original is not modified: " + ", ".join(where))
     neutral = ann.copy(); neutral.charge = None; neutral.charge_adducts = None
     m0, m1 = pt.mass(neutral), pt.mass(back)
-    tol = (10.0 ** (-sc["prec"])) * max(shifts, 1) + 1e-6 * (len(sc["seq"]) + 3)
+    dropped = max(0, len(pos) - len(back.internal_mods or {}))
+    tol = (10.0 ** (-sc["prec"])) * max(shifts, 1) + c18.slack(sc, dropped)
     if abs(m1 - m0) > tol:
         problems.append(f"mass {m1!r} vs original {m0!r} (diff {m1-m0:+.6g}, tolerance {tol:.3g})")
     site = None
